@@ -336,7 +336,8 @@ namespace vp {
 
 template<class Prop>
 rc::Gen<std::vector<std::uint8_t>> gen_input() {
-	auto byte = rc::gen::map(rc::gen::inRange<int>(0, 256), [](int v) { return static_cast<std::uint8_t>(v); });
+	// inRange scales with rapidcheck's size parameter (small sizes give small values): pin the size so that every byte is uniform over 0..255
+	auto byte = rc::gen::resize(1000, rc::gen::map(rc::gen::inRange<int>(0, 256), [](int v) { return static_cast<std::uint8_t>(v); }));
 	auto head = rc::gen::container<std::vector<std::uint8_t>>(static_cast<std::size_t>(Prop::H), byte);
 	auto rec  = rc::gen::container<std::vector<std::uint8_t>>(static_cast<std::size_t>(Prop::R), byte);
 	auto ops  = rc::gen::resize(Prop::MAXOPS, rc::gen::container<std::vector<std::vector<std::uint8_t>>>(rec));
